@@ -5,7 +5,9 @@ Case: {"ops": [[op, ci, ai, kw], ...]}
   classes: 0 A, 1 B (A and B share ONE metaclass object), 2 C(A) (subclass), 3 D (own default metaclass),
            4 E (own metaclass with a custom hashfunc: first positional int mod 3)
   op: "new" construct, "add" add_mapping(<ci-th live instance>, args), "drop", "check", "clear"
-  ai indexes ARGS; kw: 0 none, 1 {'x':1,'y':2}, 2 same keywords in the other order, 3 {'x':2}
+  ai indexes ARGS; kw: 0 none, 1 {'x':1,'y':2}, 2 same keywords in the other order, 3 {'x':2},
+      4 {'attrs': {'a':1,'b':2}}, 5 the same nested dict built in the other insertion order
+  class 5 F: own default metaclass, instances are falsy (__len__ == 0)
 """
 import itertools
 
@@ -19,9 +21,9 @@ DESIGN_REF = "DESIGN.md §3 C17"
 RULE = (
     "Histories of construct / add_mapping / drop_semi_singleton_mapping / check_semi_singleton_entry_exists / "
     "get_all_semi_singleton_instances / clear_semi_singleton over a fresh class family per case: A and B sharing "
-    "one metaclass object, C(A) a subclass, D with its own default metaclass, E with a custom hashfunc; __init__ "
-    "counts its runs.  Argument values from a domain where key equality is unambiguous (ints incl. the "
-    "hash-colliding -1/-2, strs, tuples; never mixing 1/1.0/True), keyword-order permutations.  Bounded-exhaustive "
+    "one metaclass object, C(A) a subclass, D with its own default metaclass, E with a custom hashfunc, F whose instances are falsy; __init__ "
+    "counts its runs and stamps a serial number (the harness keeps no reference to instances between calls).  Argument values from a domain where key equality is unambiguous (ints incl. the "
+    "hash-colliding -1/-2, strs, tuples; never mixing 1/1.0/True), keyword-order permutations incl. equal nested dict values built in different insertion orders.  Bounded-exhaustive "
     "for all histories up to the stated length over {A,B,C} x 3 argument values, Hypothesis beyond.  Oracle = a dict "
     "model per class: live key => that instance and __init__ not re-run; new key => new object, type(obj) is the "
     "class called, distinct from every live instance, __init__ ran once; check => the model's instance or None, "
@@ -46,12 +48,12 @@ OPS = ["new", "new", "new", "add", "drop", "check", "clear"]
 
 def budget(tier):
     if tier == "quick":
-        return dict(shards=16, examples=2500, time_s=50)
+        return dict(shards=16, examples=1200, time_s=55)
     return dict(shards=16, examples=60000, time_s=850)
 
 
 def strategy(tier):
-    op = st.tuples(st.sampled_from(OPS), st.integers(0, 4), st.integers(0, len(ARGS) - 1), st.integers(0, 3))
+    op = st.tuples(st.sampled_from(OPS), st.integers(0, 5), st.integers(0, len(ARGS) - 1), st.integers(0, 5))
     return st.builds(lambda ops: {"ops": [list(o) for o in ops]}, st.lists(op, max_size=40))
 
 
@@ -78,50 +80,69 @@ def enumerate_cases(tier, shard=0, nshards=1):
 def family():
     from edgegraph.structure import singleton as S
 
-    inits = []
+    ninit = [0]
     M = S.semi_singleton_metaclass()
 
+    def init(self, *a, **k):
+        ninit[0] += 1
+        self.serial = ninit[0]
+        self.args = (a, k)
+
     class A(metaclass=M):
-        def __init__(self, *a, **k):
-            inits.append(self)
-            self.args = (a, k)
+        __init__ = init
 
     class B(metaclass=M):
-        def __init__(self, *a, **k):
-            inits.append(self)
-            self.args = (a, k)
+        __init__ = init
 
     class C(A):
         pass
 
     class D(metaclass=S.semi_singleton_metaclass()):
-        def __init__(self, *a, **k):
-            inits.append(self)
+        __init__ = init
 
     def hf(args, kwargs):
         return (args[0] % 3) if args and isinstance(args[0], int) else 0
 
     class E(metaclass=S.semi_singleton_metaclass(hashfunc=hf)):
-        def __init__(self, *a, **k):
-            inits.append(self)
+        __init__ = init
 
-    return [A, B, C, D, E], inits, hf
+    class F(metaclass=S.semi_singleton_metaclass()):
+        """Instances are falsy (an empty-container style class)."""
+
+        __init__ = init
+
+        def __len__(self):
+            return 0
+
+    return [A, B, C, D, E, F], ninit, hf
+
+
+KWARGS = [{}, {"x": 1, "y": 2}, {"y": 2, "x": 1}, {"x": 2}, {"attrs": {"a": 1, "b": 2}}, {"attrs": {"b": 2, "a": 1}}]
 
 
 def mkargs(ai, kw):
     a = ARGS[ai]
     a = tuple(a) if isinstance(a, list) else a
-    kwargs = [{}, {"x": 1, "y": 2}, {"y": 2, "x": 1}, {"x": 2}][kw]
-    return a, kwargs
+    return a, {k: (dict(v) if isinstance(v, dict) else v) for k, v in KWARGS[kw % len(KWARGS)].items()}
+
+
+def _canon(v):
+    if isinstance(v, dict):
+        return tuple(sorted((k, _canon(x)) for k, x in v.items()))
+    return v
 
 
 def check_case(case):
+    """
+    The harness keeps no strong reference to instances between calls: identity is tracked through a serial
+    number set by __init__, the model maps (class, key) -> serial.
+    """
     from edgegraph.structure import singleton as S
 
-    CL, inits, hf = family()
-    names = ["A", "B", "C", "D", "E"]
-    model = {c: {} for c in CL}
-    live = []  # all instances ever created, creation order
+    CL, ninit, hf = family()
+    NC = len(CL)
+    names = ["A", "B", "C", "D", "E", "F"]
+    model = {c: {} for c in CL}   # key -> (serial, constructor args that reach it)
     classes = set()
     touched = set()
     seen_keys = set()
@@ -130,32 +151,36 @@ def check_case(case):
     constructed = False
     mutated_since = False
 
+    # keys probed with check() after every step: everything this history mentions, plus the colliding pair
+    probe_args = sorted({o[2] for o in case["ops"]} | {0, 1})
+    probe_kws = sorted({o[3] % len(KWARGS) for o in case["ops"]} | {0})
+
     def key(c, a, kwargs):
         if c is CL[4]:
             return hf((a,), kwargs)
-        return (a, tuple(sorted(kwargs.items())))
+        return (a, _canon(kwargs))
 
     def verify_all(where):
         for ci, c in enumerate(CL):
             try:
-                got = list(S.get_all_semi_singleton_instances(c))
+                got = [(getattr(x, "serial", None), type(x)) for x in S.get_all_semi_singleton_instances(c)]
             except Exception as e:  # noqa
                 raise Violation("get_all-raised", f"{where}: {names[ci]}: {e!r}")
-            gid = {id(x) for x in got}
-            for k, inst in model[c].items():
-                if id(inst) not in gid:
+            gser = {g[0] for g in got}
+            for k, (serial, _) in model[c].items():
+                if serial not in gser:
                     raise Violation("get_all-misses-live-instance", f"{where}: get_all({names[ci]}) lacks the instance for key {k!r}")
-            allowed = {id(x) for cc in CL if issubclass(cc, c) for x in model[cc].values()}
-            for x in got:
-                if id(x) not in allowed:
+            allowed = {ser for cc in CL if issubclass(cc, c) for ser, _ in model[cc].values()}
+            for ser, typ in got:
+                if ser not in allowed:
                     raise Violation(
                         "get_all-reports-foreign-or-dead-instance",
-                        f"{where}: get_all({names[ci]}) yields a {type(x).__name__} instance that is not a live mapping of {names[ci]} or a subclass",
+                        f"{where}: get_all({names[ci]}) yields a {typ.__name__} instance (serial {ser}) that is not a live mapping of {names[ci]} or a subclass",
                     )
-        n0 = len(inits)
+        n0 = ninit[0]
         for ci, c in enumerate(CL):
-            for ai in range(len(ARGS)):
-                for kw in (0, 1):
+            for ai in probe_args:
+                for kw in probe_kws:
                     a, kwargs = mkargs(ai, kw)
                     k = key(c, a, kwargs)
                     try:
@@ -163,62 +188,74 @@ def check_case(case):
                     except Exception as e:  # noqa
                         raise Violation("check-raised", f"{where}: {e!r}")
                     exp = model[c].get(k)
-                    if r is not exp:
+                    got = None if r is None else (getattr(r, "serial", None), type(r))
+                    del r
+                    if (got is None) != (exp is None) or (got is not None and (got[0] != exp[0] or got[1] is not c)):
                         raise Violation(
                             "check-disagrees-with-model",
-                            f"{where}: check({names[ci]}, {a!r}, {kwargs}) returned {'None' if r is None else type(r).__name__ + ' instance'}, "
-                            f"model says {'None' if exp is None else 'the ' + type(exp).__name__ + ' instance for that key'}",
+                            f"{where}: check({names[ci]}, {a!r}, {kwargs}) returned {'None' if got is None else got[1].__name__ + ' serial ' + str(got[0])}, "
+                            f"model says {'None' if exp is None else names[ci] + ' serial ' + str(exp[0])}",
                         )
-        require(len(inits) == n0, "check-created-instance", where)
+        require(ninit[0] == n0, "check-created-instance", where)
 
     for step, (op, ci, ai, kw) in enumerate(case["ops"]):
         a, kwargs = mkargs(ai, kw)
-        where = f"step {step} {op} {names[ci % 5]} {a!r} {kwargs}"
+        where = f"step {step} {op} {names[ci % NC]} {a!r} {kwargs}"
         if op == "new":
-            c = CL[ci % 5]
+            c = CL[ci % NC]
             k = key(c, a, kwargs)
             touched.add(c)
-            n0 = len(inits)
+            n0 = ninit[0]
             try:
                 o = c(a, **kwargs)
             except Exception as e:  # noqa
                 raise Violation("construct-raised", f"{where}: {e!r}")
+            ser, typ, truth = getattr(o, "serial", None), type(o), bool(o)
+            del o
             if k in model[c]:
-                require(o is model[c][k], "live-key-returned-other-instance", f"{where}: expected the live instance for key {k!r}, got {'another ' + type(o).__name__}")
-                require(len(inits) == n0, "init-ran-again", where)
+                require(ser == model[c][k][0] and typ is c, "live-key-returned-other-instance", f"{where}: expected the live instance (serial {model[c][k][0]}) for key {k!r}, got {typ.__name__} serial {ser}")
+                require(ninit[0] == n0, "init-ran-again", where)
             else:
-                require(type(o) is c, "wrong-class-returned", f"{where}: returned an instance of {type(o).__name__}")
-                require(all(o is not x for x in live), "new-key-returned-old-instance", f"{where}: key {k!r} is new for {names[ci % 5]} but an existing {type(o).__name__} instance was returned")
-                require(len(inits) == n0 + 1 and inits[-1] is o, "init-count", f"{where}: __init__ ran {len(inits) - n0} times")
-                model[c][k] = o
-                live.append(o)
+                require(typ is c, "wrong-class-returned", f"{where}: returned an instance of {typ.__name__}")
+                require(ninit[0] == n0 + 1 and ser == ninit[0], "new-key-returned-old-instance", f"{where}: key {k!r} is new for {names[ci % NC]} but __init__ ran {ninit[0] - n0} times and serial {ser} came back")
+                model[c][k] = (ser, (a, kwargs))
+                if not truth:
+                    classes.add("falsy-instance")
             if constructed and mutated_since:
                 between = True
             constructed = True
             mutated_since = False
             sk = (c, repr(a), kw)
-            if (c, "-1", kw) in seen_keys and a == -2 or (c, "-2", kw) in seen_keys and a == -1:
+            if ((c, "-1", kw) in seen_keys and a == -2) or ((c, "-2", kw) in seen_keys and a == -1):
                 special = True
                 classes.add("hash-colliding-pair")
             if kw in (1, 2) and (c, repr(a), 3 - kw) in seen_keys:
                 special = True
                 classes.add("keyword-order-permuted-pair")
+            if kw in (4, 5) and (c, repr(a), 9 - kw) in seen_keys:
+                special = True
+                classes.add("nested-dict-order-permuted-pair")
             seen_keys.add(sk)
         elif op == "add":
-            if not live:
+            entries = [(c, k) for c in CL for k in model[c]]
+            if not entries:
                 continue
-            o = live[ci % len(live)]
-            c = type(o)
+            c, k0 = entries[ci % len(entries)]
             touched.add(c)
+            a0, kw0 = model[c][k0][1]
+            o = c(a0, **kw0)                      # the live instance for (c, k0)
+            ser = getattr(o, "serial", None)
+            require(ser == model[c][k0][0], "live-key-returned-other-instance", f"{where}: fetching the live instance for key {k0!r}")
             try:
                 S.add_mapping(o, a, **kwargs)
             except Exception as e:  # noqa
                 raise Violation("add_mapping-raised", f"{where}: {e!r}")
-            model[c][key(c, a, kwargs)] = o
+            del o
+            model[c][key(c, a, kwargs)] = (ser, (a, kwargs))
             mutated_since = True
             classes.add("add_mapping")
         elif op == "drop":
-            c = CL[ci % 5]
+            c = CL[ci % NC]
             k = key(c, a, kwargs)
             touched.add(c)
             try:
@@ -234,7 +271,7 @@ def check_case(case):
         elif op == "check":
             pass  # checked for every class and key after every step
         elif op == "clear":
-            c = CL[ci % 5]
+            c = CL[ci % NC]
             touched.add(c)
             try:
                 S.clear_semi_singleton(c)
@@ -246,14 +283,12 @@ def check_case(case):
         verify_all(f"after {where}")
     # every live key still constructs its instance, without re-initialising
     for ci, c in enumerate(CL):
-        for ai in range(len(ARGS)):
-            for kw in (0, 1):
-                a, kwargs = mkargs(ai, kw)
-                k = key(c, a, kwargs)
-                if k in model[c]:
-                    n0 = len(inits)
-                    o = c(a, **kwargs)
-                    require(o is model[c][k] and len(inits) == n0, "live-key-returned-other-instance", f"final: {names[ci]}({a!r}, {kwargs})")
+        for k, (serial, (a, kwargs)) in list(model[c].items()):
+            n0 = ninit[0]
+            o = c(a, **kwargs)
+            ok = getattr(o, "serial", None) == serial and ninit[0] == n0
+            del o
+            require(ok, "live-key-returned-other-instance", f"final: {names[ci]}({a!r}, {kwargs})")
     nt = len(touched) >= 2 and (special or between)
     if between:
         classes.add("add/drop/clear-between-constructions")
